@@ -297,9 +297,9 @@ func init() {
 	for _, fam := range stdreg.Families() {
 		es := stdreg.Family(fam)
 		n := len(es)
-		per := 2500
+		per := 5000
 		if n <= 2 {
-			per = 12000 // format / formatlist: the format mini-language deserves a bigger share
+			per = 20000 // format / formatlist: the format mini-language deserves a bigger share
 		}
 		facet.Register(facet.F[Case]{
 			Prop: "C11", Name: "total/" + fam,
@@ -309,7 +309,7 @@ func init() {
 				"count-like arguments (indent) are bounded to 2^16, format widths/precisions to 4 digits; 1 case in 20 is left pristine. " +
 				"Non-trivial: >= 1 edit and the argument list passes the declared parameter protocol (arity, null, dynamic, type conformance), i.e. reaches the function's own Type/Impl callbacks. " +
 				"Labels fn=<name> / nt=<name> give per-function totals / non-trivial counts. Distinct = hash of the input JSON.",
-			Quick: per * n, Thorough: per * n * 5, Shards: 4,
+			Quick: per * n, Thorough: per * n * 5 / 2, Shards: 4,
 			Gen:   genTotal(es),
 			Check: func(c *facet.Ctx, in Case) error { return check(c, in, "total") },
 		})
@@ -334,7 +334,7 @@ func init() {
 			Rule: "function drawn uniformly from {" + names(es) + "}; wholly-known unmarked arguments: the in-domain list, in 1 case of 3 with 1-2 known-preserving edits " +
 				"(hostile numbers/strings, empties, nested nulls, other types, argument count/order). Non-trivial: every argument wholly known and Call succeeded " +
 				"(then ReturnType on the argument types must not reject, and the result type must conform to both predictions). Distinct = hash of the input JSON.",
-			Quick: 1200 * n, Thorough: 6000 * n, Shards: 4,
+			Quick: 2000 * n, Thorough: 6000 * n, Shards: 4,
 			Gen:   genAccepts(es),
 			Check: func(c *facet.Ctx, in Case) error { return check(c, in, "accepts") },
 		})
@@ -343,7 +343,7 @@ func init() {
 			Rule: "function drawn uniformly from {" + names(es) + "}; in-domain arguments, each with probability 2/3 weakened (gen.Weaken: any sub-value replaced by a typed unknown, " +
 				"unrefined or refined consistently with the replaced part, or by DynamicVal at argument level and in tuple/object members). Non-trivial: >= 1 unknown part and Call succeeded " +
 				"(then the result type must conform to ReturnType(argument types) and to ReturnTypeForValues(arguments)). Distinct = hash of the input JSON.",
-			Quick: 1200 * n, Thorough: 6000 * n, Shards: 4,
+			Quick: 2000 * n, Thorough: 6000 * n, Shards: 4,
 			Gen:   genVs(es),
 			Check: func(c *facet.Ctx, in Case) error { return check(c, in, "vs") },
 		})
